@@ -72,4 +72,11 @@ PROPS["C18"] = dict(engines=["asource"], design="5/C18",
          "loop-instance steps inferred by TLC.",
     note="Trusted: TLC; virtual-time loop; sources are given an explicit loop (see C19); from_iterable over an iterator.")
 
+PROPS["C17"] = dict(engines=["asrcfile"], design="5/C17",
+    technique="TLA+ specs TextFile / Filenames (TLC exhaustive over texts, chunkings and poll placements) + trace validation of the real from_textfile / filenames sources on real files under a virtual clock",
+    text="TLC checks Conservation, WholeRecords, TailHeld and Exact for every text of <= 7 characters over {x, newline, |}, every chunking into writes of 1-2 characters, "
+         "every placement of polls and three delimiters (single, two different, doubled character), with and without from_end; thousands of runs of the real source "
+         "on a scratch file (byte-level writes between polls) are validated with the read() step inferred by TLC; filenames likewise (ExactlyOnce, SortedPerPoll).",
+    note="Trusted: TLC; virtual-time loop; local filesystem semantics of the sandbox; ASCII text (the multi-byte case is known finding F17).")
+
 # violations found by an engine shared between properties are attributed by v['property']
